@@ -1,0 +1,21 @@
+//go:build verif
+
+package rtpconn
+
+// Hooks for the verification harness (property C08, driver `auth`): the
+// functions through which a web client's permission list is created and
+// edited.  Add-only; not built without the tag `verif`.
+
+// VerifAuthInit runs webClient.Init on a fresh client and returns the
+// permission list the client holds afterwards (not a copy of it).
+func VerifAuthInit(username string, perms []string) []string {
+	c := &webClient{}
+	c.Init(username, perms)
+	return c.permissions
+}
+
+// VerifAuthRemove is remove, as used by changePermissionsAction.
+func VerifAuthRemove(v string, l []string) []string { return remove(v, l) }
+
+// VerifAuthAddnew is addnew, as used by changePermissionsAction.
+func VerifAuthAddnew(v string, l []string) []string { return addnew(v, l) }
